@@ -125,6 +125,8 @@ def theory(cell):
     t["NfFF"] = nfff
     t["PTO"] = cell.get("pto", 0)
     t["TMC"] = cell.get("tmc", 0)
+    if "ptodis" in cell:
+        t["PTODIS"] = cell["ptodis"]  # order of the DIS calculation when different from the evolution order PTO
     for k, v in cell.get("theory", {}).items():
         if v == "__inf__":
             v = math.inf
